@@ -49,7 +49,19 @@ CLAIMS = {
              "(e.g. Many(E ';')) or a lower stratum that refers back to the upper one has no least-fixpoint meaning in general, and "
              "Name/Single over Optional is known finding D9; there completeness is decided per case by the harness's independent "
              "least-fixpoint derivation table and the model/implementation differential - bounded exploration.",
-        note="Derives is the monotone reading (Choice as Any, repetitions may stop wherever lenCheck allows): soundness is claimed against "
+        note="THE MODEL'S PARSER CORE IS TIED TO THE SOURCE BY TRANSLATION (Props/C01P.lean; also built by the checks of C02 C03 C04 C06 C10 "
+             "C17): on every run factgen -out-core translates 48 functions of /repo statement by statement into Lean "
+             "(Generated/FactsCore.lean: Context.RegisterCall / SetError / Error, ResultCache.Get / Save, AppendNode, NodeList.Append, "
+             "the closures of Optional, Single, SuppressError, ReturnError, Empty, End, Any, Choice, Memoize, LeftTrim, RightTrim, "
+             "parsley.Parse, the whole Sequence machinery - sequence.parse / parseNext as a fuelled mutual block, the result handler, "
+             "Seq / SeqOf / SeqTry / SeqFirstOrAll / Many / SepBy constructors and the Name / Token / Bind / HandleResult setters) "
+             "and c01_translated_core, c01p_sequence_machinery, c01p_sequence_family, c01p_parse, c01p_context_cache_append prove, "
+             "combinator by combinator, that IF the sub-parsers' translated calls agree with run cfg fuel THEN the translated body "
+             "agrees with run cfg (fuel+1) on the combinator node, under an explicit relation between the model state and the "
+             "translated Context (call count, error, cache). 53 semantic edits tried in scratch copies each break a tie theorem, 29 "
+             "equivalent rewrites do not. Not yet proved: the closed-world composition (a world built by recursion on fuel from the "
+             "translated closures); terminals and the reader are handles / world functions there (the reader's own tie is C10P). "
+             "Derives is the monotone reading (Choice as Any, repetitions may stop wherever lenCheck allows): soundness is claimed against "
              "it. TermGood (terminals return well-positioned leaves) is proved of the built-in terminals by C08 (c08_termGood). A "
              "sequence stops enumerating after an alternative whose last node has token EOF: completeness is stated below the Sentence wrapper.",
         technique="Lean 4 invariant proofs by induction on fuel over the executable parser model (soundness, reuse-completeness with a cache invariant) + cut argument on sized derivations + derivation oracle + differential correspondence + regenerated facts"),
